@@ -17,6 +17,8 @@ def gen_cmds(rng):
     for _ in range(rng.randrange(2, 7)):
         k = rng.choice(["create_stream", "create_stream", "update_stream", "delete_stream", "purge_stream", "create_user", "delete_user"])
         cmds.append({"k": k, "name": rng.choice(NAMES), "id": rng.randrange(1, 9), "user": rng.choice([1, 1, 2])})
+        if rng.random() < 0.3:
+            cmds[-1]["fail"] = True          # this command's append fails (fault injected by the harness)
     return cmds
 
 
@@ -78,7 +80,17 @@ def run(out, tier, seed, gate):
     for j in journals:
         m = made[j["id"]]
         base = bytes.fromhex(m["hex"])
-        bounds = m["bounds"]
+        bounds = sorted(set(m["bounds"]))           # a failed append adds no boundary
+        # what apply() left behind must load as exactly the commands whose append succeeded, numbered 0..n-1
+        want_ok = [not c.get("fail") for c in j["cmds"]]
+        if m["applied"] != want_ok:
+            out.violation("apply-result-%s" % j["id"], {"kind": "spec-monitor", "mode": "journal-make", "journal": j, "applied": m["applied"],
+                                                       "what": "apply() reported success for a command whose append failed, or failure for one that was written"})
+        chk = harness.run_traces("journal-load", [{"id": "made", "files": [hexs(base)]}], shards=1)["made"]["outs"][0]
+        if "ok" not in chk or [e[0] for e in chk["ok"]] != list(range(sum(want_ok))):
+            out.violation("apply-journal-%s" % j["id"], {"kind": "spec-monitor", "mode": "journal-make", "journal": j, "load": chk, "file_hex": hexs(base),
+                                                        "what": "the journal written by apply() (with failed appends in between) does not load as the successful commands numbered consecutively from 0"})
+            continue
         vs = variants(rng, base, bounds, tier)
         kept, bigs = [], 0
         for (kind, arg, b) in vs:
